@@ -558,16 +558,27 @@ impl Mp4Track {
                             )?;
                         }
                         let duration = trun.sample_durations[sample_idx];
-                        return Ok((base_start_time + start_offset, duration));
+                        let start_time = base_start_time.checked_add(start_offset).ok_or(
+                            Error::InvalidData(
+                                "attempt to calculate sample start time with overflow",
+                            ),
+                        )?;
+                        return Ok((start_time, duration));
                     }
                 }
                 // Default durations: the sample starts `sample_idx` default durations
                 // after the base decode time of its own fragment.
                 let start_offset = sample_idx as u64 * default_sample_duration as u64;
-                return Ok((base_start_time + start_offset, default_sample_duration));
+                let start_time = base_start_time.checked_add(start_offset).ok_or(
+                    Error::InvalidData("attempt to calculate sample start time with overflow"),
+                )?;
+                return Ok((start_time, default_sample_duration));
             }
             let start_offset = sample_id.saturating_sub(1) as u64 * default_sample_duration as u64;
-            Ok((base_start_time + start_offset, default_sample_duration))
+            let start_time = base_start_time.checked_add(start_offset).ok_or(
+                Error::InvalidData("attempt to calculate sample start time with overflow"),
+            )?;
+            Ok((start_time, default_sample_duration))
         } else {
             let stts = &self.trak.mdia.minf.stbl.stts;
 
